@@ -348,6 +348,13 @@ func (c *Ctx) sites(f *ssa.Function, env Env, chk *GCheck, depth int) []gsite {
 			case *ssa.Call:
 				match := chk.MatchCall != nil && chk.MatchCall(c, x, env)
 				boolWant := !chk.BoolFalse
+				// a membership accessor (`func (m set) has(k K) bool { _, ok := m[k]; return ok }`): the call is the
+				// comma-ok lookup it hands back, in the accessor's frame
+				if !match && chk.MatchOK != nil {
+					if lk, g := membershipAccessor(x); lk != nil && chk.MatchOK(c, lk, c.calleeEnvV(&x.Call, g, env, x)) {
+						match = true
+					}
+				}
 				if !match && !chk.NoDescend && depth < 8 {
 					cs := c.Callees(&x.Call)
 					envOf := func(g *ssa.Function) Env { return c.calleeEnvV(&x.Call, g, env, x) }
@@ -1374,6 +1381,7 @@ func (c *Ctx) tableLoopEnvsAlt(f *ssa.Function, env Env) []tableEnv {
 		sl    *ssa.Slice
 		arr   *ssa.UnOp   // array form: the load of the whole local array
 		loads []ssa.Value // global form: the loads of the global in f
+		glob  *ssa.Global // package-level array form: arr is the load of the whole array
 	}
 	var cands []cand
 	for _, b := range f.Blocks {
@@ -1386,6 +1394,15 @@ func (c *Ctx) tableLoopEnvsAlt(f *ssa.Function, env Env) []tableEnv {
 				if al, isAl := ld.X.(*ssa.Alloc); isAl {
 					if _, isArr := derefT(al.Type()).Underlying().(*types.Array); isArr {
 						cands = append(cands, cand{arr: ld})
+					}
+				}
+			}
+			// a package-level array literal ranged over by value (its elements are stored by the package initialiser and
+			// nowhere else)
+			if ld, ok := in.(*ssa.UnOp); ok && ld.Op == token.MUL {
+				if g, isG := ld.X.(*ssa.Global); isG && g.Pkg != nil {
+					if _, isArr := derefT(g.Type()).Underlying().(*types.Array); isArr {
+						cands = append(cands, cand{arr: ld, glob: g})
 					}
 				}
 			}
@@ -1410,12 +1427,50 @@ func (c *Ctx) tableLoopEnvsAlt(f *ssa.Function, env Env) []tableEnv {
 	{
 		for _, cd := range cands {
 			sl := cd.sl
-			var al *ssa.Alloc
+			var al ssa.Value
+			var alRefs []ssa.Instruction
 			var ok bool
-			if cd.arr != nil {
-				al, ok = cd.arr.X.(*ssa.Alloc)
+			if cd.glob != nil {
+				al, ok = cd.glob, true
+				// the uses of the package-level array: element addresses with a constant index in the initialiser, whole
+				// loads elsewhere — anything else (an element written later, its address handed on) and it is no constant table
+				init := cd.glob.Pkg.Func("init")
+				for _, fn := range allFuncs(cd.glob.Pkg) {
+					forEachInstr(fn, func(i2 ssa.Instruction) {
+						var ops []*ssa.Value
+						for _, op := range i2.Operands(ops) {
+							if *op != ssa.Value(cd.glob) {
+								continue
+							}
+							switch y := i2.(type) {
+							case *ssa.IndexAddr:
+								if fn == init {
+									alRefs = append(alRefs, y)
+								} else {
+									ok = false
+								}
+							case *ssa.UnOp:
+								if y.Op != token.MUL {
+									ok = false
+								}
+							case *ssa.DebugRef:
+							default:
+								ok = false
+							}
+						}
+					})
+				}
 			} else {
-				al, ok = sl.X.(*ssa.Alloc)
+				var a0 *ssa.Alloc
+				if cd.arr != nil {
+					a0, ok = cd.arr.X.(*ssa.Alloc)
+				} else {
+					a0, ok = sl.X.(*ssa.Alloc)
+				}
+				if ok {
+					al = a0
+					alRefs = *a0.Referrers()
+				}
 			}
 			if !ok {
 				continue
@@ -1430,7 +1485,7 @@ func (c *Ctx) tableLoopEnvsAlt(f *ssa.Function, env Env) []tableEnv {
 			}
 			// stores per element: field index (-1 for a non-struct element) -> value
 			stores := map[int64]map[int]ssa.Value{}
-			for _, r := range *al.Referrers() {
+			for _, r := range alRefs {
 				ia, isIA := r.(*ssa.IndexAddr)
 				if !isIA {
 					continue
@@ -2014,4 +2069,44 @@ func hasEventIn(h *ssa.Function, events func(in ssa.Instruction) bool, d int) bo
 		}
 	})
 	return found
+}
+
+// membershipAccessor: the call is to a module function whose whole body is one comma-ok lookup of a parameter in a
+// parameter (or receiver), handing back the ok flag; returns that lookup and the function.
+func membershipAccessor(cl *ssa.Call) (*ssa.Lookup, *ssa.Function) {
+	g := cl.Call.StaticCallee()
+	if g == nil || !inModule(g) || len(g.Blocks) != 1 || !isBoolType(cl.Type()) {
+		return nil, nil
+	}
+	var lk *ssa.Lookup
+	for _, in := range g.Blocks[0].Instrs {
+		switch x := in.(type) {
+		case *ssa.Lookup:
+			if lk != nil || !x.CommaOk {
+				return nil, nil
+			}
+			lk = x
+		case *ssa.Extract, *ssa.DebugRef:
+		case *ssa.Return:
+			if lk == nil || len(x.Results) != 1 {
+				return nil, nil
+			}
+			ex, ok := x.Results[0].(*ssa.Extract)
+			if !ok || ex.Tuple != ssa.Value(lk) || ex.Index != 1 {
+				return nil, nil
+			}
+		default:
+			return nil, nil
+		}
+	}
+	if lk == nil {
+		return nil, nil
+	}
+	if _, ok := lk.X.(*ssa.Parameter); !ok {
+		return nil, nil
+	}
+	if _, ok := lk.Index.(*ssa.Parameter); !ok {
+		return nil, nil
+	}
+	return lk, g
 }
